@@ -50,6 +50,17 @@ public:
   void mul_scalar(const RCPBasic &k, DenseMatrix &result) const { mul_dense_scalar(*this, k, result); }
   void transpose(DenseMatrix &result) const { transpose_dense(*this, result); }
 };
+/* std::vector<DenseMatrix> (berkowitz): fixed capacity, separately stored elements */
+#define DMCAP 4
+struct dm_vector {
+  DenseMatrix d[DMCAP]; unsigned n;
+  dm_vector() { n = 0; }
+  unsigned size() const { return n; }
+  void clear() { n = 0; }
+  void push_back(const DenseMatrix &x) { __CPROVER_assert(n < DMCAP, "stub capacity (vector<DenseMatrix>)"); if (n < DMCAP) { d[n] = x; n = n + 1; } }
+  DenseMatrix &operator[](unsigned i) { __CPROVER_assert(i < n, "vector index in bounds"); return d[i < DMCAP ? i : 0]; }
+};
+inline vec_basic mk_vec2(const RCPBasic &a, const RCPBasic &b) { vec_basic v(2); v.d[0] = a; v.d[1] = b; return v; }
 inline RCPBasic pow(const RCPBasic &a, const RCPBasic &e) { __CPROVER_assert(e.nn && FVAL(e) == 2 % FP, "stub: pow is only modelled for the exponent 2"); return mul(a, a); }
 inline RCPBasic sel_rcp(bool c, const RCPBasic &a, const RCPBasic &b) { if (c) return a; return b; }
 inline RCPBasic expand(const RCPBasic &a) { return a; }
@@ -79,4 +90,5 @@ void diag(DenseMatrix &A, vec_basic &v, int k = 0);
 void zeros(DenseMatrix &A);
 void pivoted_gauss_jordan_elimination(const DenseMatrix &A, DenseMatrix &B, permutelist &pl);
 void pivoted_fraction_free_gauss_jordan_elimination(const DenseMatrix &A, DenseMatrix &B, permutelist &pl);
+void berkowitz(const DenseMatrix &A, dm_vector &polys);
 #endif
